@@ -311,8 +311,11 @@ class _Seam:
         self.res = res
         self.draws = 0
         self.saved = []
+        self.paused = False
 
     def _count(self):
+        if self.paused:
+            return  # draws made by the harness itself (interference inside fake callbacks)
         self.draws += 1
         self.res.steps += 1
         if self.draws > DRAW_BUDGET:
